@@ -246,7 +246,19 @@ func identOf(e ast.Expr) *ast.Ident {
 // manager, which are scheduling points already), and so is cluster/mrpc (its codec
 // runs under net/rpc's own, real, request mutex).
 func stmtYieldPkg(path string) bool {
-	return strings.HasSuffix(path, "/cluster") || strings.Contains(path, "/httpapi")
+	if strings.HasSuffix(path, "/cluster") || strings.Contains(path, "/httpapi") {
+		return true
+	}
+	// the write / search assembly of a shard and the pipeline stages it is built from:
+	// windows between starting a stage goroutine, checking a context and returning have
+	// no synchronisation operation in them. The hot inner loops (graph, vector stores,
+	// item cache, distance, conversion) stay without.
+	for _, suf := range []string{"/semadb/shard", "/semadb/shard/index", "/semadb/shard/index/inverted", "/semadb/shard/index/text", "/semadb/utils", "/semadb/shard/pointstore"} {
+		if strings.HasSuffix(path, suf) {
+			return true
+		}
+	}
+	return false
 }
 
 func (r *rewriter) stmtYields() {
@@ -383,6 +395,20 @@ func (r *rewriter) apply() {
 							}
 							recvT = t
 							sel = &ast.SelectorExpr{X: recvX, Sel: sel.Sel}
+						}
+						if ok, ptr := isNamed(recvT, "sync", "Pool"); ok {
+							// a sync.Pool hands back "some" earlier object (per-P caches, GC): owned by
+							// the simulator so that one seed stays one execution
+							switch fn.Name() {
+							case "Get":
+								r.stats["PoolGet"]++
+								c.Replace(r.call("PoolGet", r.addr(sel.X, ptr)))
+							case "Put":
+								if len(n.Args) == 1 {
+									r.stats["PoolPut"]++
+									c.Replace(r.call("PoolPut", r.addr(sel.X, ptr), n.Args[0]))
+								}
+							}
 						}
 						for _, tn := range []string{"Mutex", "RWMutex", "WaitGroup"} {
 							if ok, ptr := isNamed(recvT, "sync", tn); ok {
